@@ -1,5 +1,7 @@
 //! Family 1: histories of public calls on the owned array (C01, C05, C06, C07, C11, C12).
 use crate::util::*;
+#[allow(unused_imports)]
+use crate::util::Big;
 use std::panic::{catch_unwind, AssertUnwindSafe};
 use toodee::*;
 
@@ -391,8 +393,25 @@ pub fn emit(out: &mut Out, prop: u32, track: bool, ops: &[Op]) {
     out.end(&obs);
 }
 
+/// the same history on the 328-byte element type
+pub fn emit_big(out: &mut Out, prop: u32, ops: &[Op]) {
+    let mut inp = encode_input(false, 2, ops);
+    inp[1] = Big::ESZ;
+    if out.want_sample() { out.sample(&format!("C{:02} 328-byte elements history={:?}", prop, ops)); }
+    out.begin(prop, FAM, &inp);
+    let mut obs = vec![];
+    run_hist::<Big>(ops, &mut obs);
+    out.end(&obs);
+}
+
 /// re-run a recorded input (replay / shrinking)
 pub fn replay(out: &mut Out, prop: u32, fam: u32, inp: &[u64]) {
+    if fam != 2 && inp[1] == Big::ESZ {
+        let n = inp[4];
+        let mut it = inp[5..].iter();
+        let ops: Vec<Op> = (0..n).map(|_| Op::decode(&mut it)).collect();
+        return emit_big(out, prop, &ops);
+    }
     let track = inp[3] != 0;
     let n = inp[4];
     let mut it = inp[5..].iter();
@@ -873,6 +892,43 @@ pub fn gen_bombs(out: &mut Out, prop: u32, tier: &str) {
                                         Op::PushRow(Script::honest(ids(c as usize, 600))), Op::Fill(4300), Op::Clear]);
             }
         }
+    }
+}
+
+/// large elements: every insert / remove operation on small shapes (a 2-cell row is already
+/// wider than 256 bytes, a 13-cell array larger than a page), then random histories
+pub fn gen_big(out: &mut Out, prop: u32, tier: &str, rng: &mut Rng) {
+    for (c, r) in [(1u64, 1u64), (2, 3), (3, 2), (1, 4), (4, 1), (5, 3), (3, 5)] {
+        let row = |b: u32| Script::honest(ids(c as usize, b));
+        let col = |b: u32| Script::honest(ids(r as usize, b));
+        let mut ops: Vec<Op> = vec![Op::Clear, Op::SwapDims, Op::Fill(77), Op::CloneArr, Op::IntoVec, Op::IntoIter(2)];
+        for i in 0..=r { ops.push(Op::InsertRow(i, row(700))); }
+        for i in 0..=c { ops.push(Op::InsertCol(i, col(800))); }
+        ops.push(Op::PushRow(row(900))); ops.push(Op::PushCol(col(950)));
+        for fin in [DEnd::Drop, DEnd::Forget] {
+            for st in [vec![], vec![DStep::Front], vec![DStep::Back, DStep::Len, DStep::Front]] {
+                for i in 0..r { ops.push(Op::RemoveRow(i, st.clone(), fin)); }
+                for i in 0..c { ops.push(Op::RemoveCol(i, st.clone(), fin)); }
+                ops.push(Op::PopRow(st.clone(), fin)); ops.push(Op::PopCol(st.clone(), fin));
+            }
+        }
+        for op in ops {
+            for spare in [false, true] {
+                let mut h = vec![FromVecOp(c, r)];
+                if spare { h.push(Op::Capacity(0, 2 * (c + r))); }
+                h.push(op.clone());
+                h.push(Op::PushRow(Script::honest(ids(8, 600))));
+                h.push(Op::SetCell(0, 0, 5));
+                emit_big(out, prop, &h);
+            }
+        }
+    }
+    let n = if tier == "quick" { 300 } else { 6000 };
+    for _ in 0..n {
+        let len = 1 + rng.below(10) as usize;
+        let mut ops: Vec<Op> = rand_history(rng, len, true, true).into_iter().filter(|o| !matches!(o, Op::Bomb(..) | Op::Fuse(..) | Op::New(..) | Op::Init(..))).collect();
+        ops.push(Op::DropArr);
+        emit_big(out, prop, &ops);
     }
 }
 
